@@ -32,17 +32,20 @@ def run(ctx):
                   'handed back to the Loop with them as the caller)', minimum=20)
     rmv = ctx.rule('R-MOVEOUT.site', 'the strategies take input values through Retire(); no move-out of a possibly '
                    'shared input core', minimum=0)
+    rpf = ctx.rule('R-POLICYFWD', 'a function instantiated with a FailPolicy hands the same policy to every callee that '
+                   'is parameterised by one (entry point -> when::When -> strategy class)', minimum=12)
     for cfg, fb in sorted(fbs.items()):
-        lib_core.check_move_sites(ctx, fb, rmv, lambda f: 'async/when' in f.file)
-        lib_core.check_loop_caller(ctx, fb, rl, lambda f: f.clsq.startswith('yaclib::when::'))
+        ctx.guard(lambda: lib_when.check_policy_forward(ctx, fb, rpf, r'^yaclib::(WhenAll|Join)$', False))
+        ctx.guard(lambda: lib_core.check_move_sites(ctx, fb, rmv, lambda f: 'async/when' in f.file))
+        ctx.guard(lambda: lib_core.check_loop_caller(ctx, fb, rl, lambda f: f.clsq.startswith('yaclib::when::')))
         fns = lib_accessor.functions_with_accessors(fb, WHEN_FILES)
         if not fns:
             ctx.broken('no accessor call found in the combinator strategies (%s)' % cfg)
-        lib_accessor.check(ctx, fb, ra, fns, EXEMPT)
-        lib_core.check_node_reuse(ctx, fb, rnr, lambda f: 'async/when' in f.file)
-        lib_when.check_setonce(ctx, fb, rs, STRATS)
-        lib_when.check_callbacks(ctx, fb, rcb)
-        lib_when.check_sibling(ctx, fb, rsb)
-        lib_when.check_count(ctx, fb, rcn)
+        ctx.guard(lambda: lib_accessor.check(ctx, fb, ra, fns, EXEMPT))
+        ctx.guard(lambda: lib_core.check_node_reuse(ctx, fb, rnr, lambda f: 'async/when' in f.file))
+        ctx.guard(lambda: lib_when.check_setonce(ctx, fb, rs, STRATS))
+        ctx.guard(lambda: lib_when.check_callbacks(ctx, fb, rcb))
+        ctx.guard(lambda: lib_when.check_sibling(ctx, fb, rsb))
+        ctx.guard(lambda: lib_when.check_count(ctx, fb, rcn))
         lib_order.check(ctx, fb, cfg, ['yaclib::when::All::_done', 'yaclib::when::AllTuple::_done',
                                        'yaclib::when::Join::_done'], rw, ro, rc)
